@@ -3,8 +3,16 @@ import os, sys, re, json, time, subprocess, hashlib, random, shutil, fcntl
 
 ROOT = os.path.dirname(os.path.dirname(os.path.abspath(__file__)))
 REPO = os.environ.get("VERIF_REPO", "/repo")
-BUILD = os.path.join(ROOT, "build")
-COQ = os.path.join(ROOT, "coq")
+# VERIF_WORK (optional): a private copy of the mutable state (Coq objects, build products, evidence, replays), so that
+# several runs (e.g. against different scratch worktrees of the repository, VERIF_REPO) do not disturb each other.
+WORK = os.environ.get("VERIF_WORK", ROOT)
+if WORK != ROOT and not os.path.isdir(os.path.join(WORK, "coq")):
+    os.makedirs(os.path.join(WORK, "build", "model"), exist_ok=True)
+    subprocess.run(["rsync", "-a", os.path.join(ROOT, "coq") + "/", os.path.join(WORK, "coq") + "/"], check=True)
+    if os.path.isdir(os.path.join(ROOT, "build", "model")):
+        subprocess.run(["rsync", "-a", os.path.join(ROOT, "build", "model") + "/", os.path.join(WORK, "build", "model") + "/"], check=False)
+BUILD = os.path.join(WORK, "build")
+COQ = os.path.join(WORK, "coq")
 NCPU = os.cpu_count() or 4
 
 STD_AXIOMS = {  # axioms declared by Coq's standard library itself; may appear, must be reported
@@ -292,14 +300,14 @@ class Check:
         self.streams = {}
         self.proof = None
         self.known = load_known().get(pid, [])
-        os.makedirs(os.path.join(ROOT, "replays", pid), exist_ok=True)
-        os.makedirs(os.path.join(ROOT, "evidence"), exist_ok=True)
+        os.makedirs(os.path.join(WORK, "replays", pid), exist_ok=True)
+        os.makedirs(os.path.join(WORK, "evidence"), exist_ok=True)
 
     def quick(self):
         return self.tier == "quick"
 
     def replay_path(self, tag):
-        return os.path.join(ROOT, "replays", self.pid, "%s_%s.json" % (tag, self.seed))
+        return os.path.join(WORK, "replays", self.pid, "%s_%s.json" % (tag, self.seed))
 
     def violation(self, what, record, tag="fail", no_input=False, key=None):
         """report a violation unless it matches a known finding (matched by key)."""
@@ -347,7 +355,7 @@ class Check:
         ev = {"property_id": self.pid, "tier": self.tier, "seed": self.seed, "level": level, "coverage": cov,
               "assumptions": self.assumptions, "wall_s": round(time.time() - self.t0, 1), "violations": len(self.violations),
               "known_findings_hit": self.known_hits}
-        with open(os.path.join(ROOT, "evidence", self.pid + ".json"), "w") as f:
+        with open(os.path.join(WORK, "evidence", self.pid + ".json"), "w") as f:
             json.dump(ev, f, indent=1, default=str)
         for what, path, no_input in self.violations:
             log("VIOLATION property=%s replay=%s%s" % (self.pid, path, " no-failing-input-found" if no_input else ""))
